@@ -10,6 +10,8 @@
    end states are checked (disjointness, containment, nothing left claimed, whole arena allocatable again). -/
 import MiVerif.Model.BitmapCExec
 import MiVerif.Gen.Arith
+import MiVerif.Gen.Loops
+import MiVerif.Lemmas.BitmapMask
 
 namespace C14
 open BitmapC
@@ -63,5 +65,58 @@ theorem block_ranges_disjoint (start i j : Nat) (hij : i < j) : start + (i + 1) 
 -- non-vacuity: two claims in the empty bitmap are disjoint
 example : Steps { bits := fun _ => false, owns := [] } { bits := setRange (fun _ => false) 3 9 true, owns := [⟨3, 9, 0⟩] } :=
   seq_claim _ 3 9 (by decide) (fun _ _ _ => rfl)
+
+/-- **`mi_bitmap_mask_` as regenerated from the source**: the mask a claim of `count` bits at `bitidx` compares-and-swaps into a
+    bitmap field has exactly the bits `[bitidx, bitidx + count)` — the range the claim models (`BitSeq.claim`, `BitmapC` owner runs)
+    speak about (every non-empty claim that fits in a field) -/
+theorem generated_bitmap_mask_is_the_bit_range (count bitidx j : Nat) (hc : 1 ≤ count) (hfit : bitidx + count ≤ 64) (hj : j < 64) :
+    (Gen.mi_bitmap_mask_ count bitidx).testBit j = decide (bitidx ≤ j ∧ j < bitidx + count) :=
+  BitmapMaskL.mask_bit count bitidx j hc hfit hj
+
+/-- the claim test of the source, `(map & mask) == 0`, for two masks: claims of disjoint bit ranges never conflict and claims of
+    overlapping ranges always do — a field value that contains an earlier claim's mask refuses every later overlapping claim -/
+theorem generated_bitmap_masks_conflict_iff_ranges_overlap (c1 i1 c2 i2 : Nat) (h1 : 1 ≤ c1) (f1 : i1 + c1 ≤ 64) (h2 : 1 ≤ c2) (f2 : i2 + c2 ≤ 64) :
+    Gen.mi_bitmap_mask_ c1 i1 &&& Gen.mi_bitmap_mask_ c2 i2 = 0 ↔ (i1 + c1 ≤ i2 ∨ i2 + c2 ≤ i1) := by
+  constructor
+  · intro h
+    rcases Nat.lt_or_ge i2 (i1 + c1) with a | a
+    · rcases Nat.lt_or_ge i1 (i2 + c2) with b | b
+      · -- overlapping: the larger of the two starts is in both ranges
+        have hj : max i1 i2 < 64 := by omega
+        have t := congrArg (fun m => m.testBit (max i1 i2)) h
+        simp only [Nat.testBit_and, Nat.zero_testBit] at t
+        rw [BitmapMaskL.mask_bit c1 i1 _ h1 f1 hj, BitmapMaskL.mask_bit c2 i2 _ h2 f2 hj,
+            decide_eq_true (by omega), decide_eq_true (by omega)] at t
+        cases t
+      · exact Or.inr b
+    · exact Or.inl a
+  · intro h
+    apply Nat.eq_of_testBit_eq
+    intro j
+    rw [Nat.testBit_and, Nat.zero_testBit]
+    rcases Nat.lt_or_ge j 64 with hj | hj
+    · rw [BitmapMaskL.mask_bit c1 i1 j h1 f1 hj, BitmapMaskL.mask_bit c2 i2 j h2 f2 hj]
+      by_cases a : i1 ≤ j ∧ j < i1 + c1
+      · rw [decide_eq_true a, decide_eq_false (by omega)]; rfl
+      · rw [decide_eq_false a]; rfl
+    · have : (Gen.mi_bitmap_mask_ c1 i1).testBit j = false :=
+        Nat.testBit_lt_two_pow (Nat.lt_of_lt_of_le (BitmapMaskL.mask_lt c1 i1) (Nat.pow_le_pow_right (by decide) hj))
+      rw [this]; rfl
+
+/-- bitmap indices as regenerated: `mi_bitmap_index_create field bit` is decomposed again by `mi_bitmap_index_field` /
+    `mi_bitmap_index_bit_in_field` (bit < 64, no wrap-around), so the field a claim is released in is the field it was made in -/
+theorem generated_bitmap_index_roundtrip (field bit : Nat) (hb : bit < 64) (hf : field * 64 + bit < 2^64) :
+    Gen.mi_bitmap_index_field (GenL.mi_bitmap_index_create field bit) = field
+    ∧ Gen.mi_bitmap_index_bit_in_field (GenL.mi_bitmap_index_create field bit) = bit := by
+  have e64 : (2:Nat)^64 = 18446744073709551616 := by decide
+  rw [e64] at hf
+  unfold Gen.mi_bitmap_index_field Gen.mi_bitmap_index_bit_in_field GenL.mi_bitmap_index_create GenL.mi_bitmap_index_create_ex
+  rw [Nat.mod_eq_of_lt (a := field * 64) (by omega), Nat.mod_eq_of_lt (by omega)]
+  constructor <;> omega
+
+-- non-vacuity: 3 bits at bit 5 = 0b11100000; claims [5,8) and [8,10) do not conflict, [5,8) and [7,9) do
+example : Gen.mi_bitmap_mask_ 3 5 = 224 := by decide
+example : Gen.mi_bitmap_mask_ 3 5 &&& Gen.mi_bitmap_mask_ 2 8 = 0 := by decide
+example : Gen.mi_bitmap_mask_ 3 5 &&& Gen.mi_bitmap_mask_ 2 7 ≠ 0 := by decide
 
 end C14
